@@ -212,6 +212,100 @@ pub mod atomic {
     shim_atomic_int!(AtomicU32, std::sync::atomic::AtomicU32, u32);
     shim_atomic_int!(AtomicU64, std::sync::atomic::AtomicU64, u64);
     shim_atomic_int!(AtomicUsize, std::sync::atomic::AtomicUsize, usize);
+
+    #[repr(transparent)]
+    pub struct AtomicBool(std::sync::atomic::AtomicBool);
+
+    impl AtomicBool {
+        #[must_use]
+        pub const fn new(value: bool) -> Self {
+            Self(std::sync::atomic::AtomicBool::new(value))
+        }
+
+        fn addr(&self) -> usize {
+            std::ptr::from_ref(self) as usize
+        }
+
+        pub fn load(&self, order: Ordering) -> bool {
+            match hooks() {
+                None => self.0.load(order),
+                Some(h) => {
+                    (h.atomic)(self.addr(), AtomicOp::Load, order, NA, &mut || {
+                        (u64::from(self.0.load(order)), None)
+                    }) != 0
+                }
+            }
+        }
+
+        pub fn store(&self, value: bool, order: Ordering) {
+            match hooks() {
+                None => self.0.store(value, order),
+                Some(h) => {
+                    (h.atomic)(self.addr(), AtomicOp::Store, order, NA, &mut || {
+                        let old = self.0.swap(value, order);
+                        (u64::from(old), Some(u64::from(value)))
+                    });
+                }
+            }
+        }
+
+        pub fn swap(&self, value: bool, order: Ordering) -> bool {
+            match hooks() {
+                None => self.0.swap(value, order),
+                Some(h) => {
+                    (h.atomic)(self.addr(), AtomicOp::Rmw, order, NA, &mut || {
+                        let old = self.0.swap(value, order);
+                        (u64::from(old), Some(u64::from(value)))
+                    }) != 0
+                }
+            }
+        }
+
+        pub fn compare_exchange(
+            &self,
+            current: bool,
+            new: bool,
+            success: Ordering,
+            failure: Ordering,
+        ) -> Result<bool, bool> {
+            match hooks() {
+                None => self.0.compare_exchange(current, new, success, failure),
+                Some(h) => {
+                    let mut ok = false;
+                    let seen = (h.atomic)(self.addr(), AtomicOp::Cas, success, failure, &mut || {
+                        match self.0.compare_exchange(current, new, success, failure) {
+                            Ok(old) => {
+                                ok = true;
+                                (u64::from(old), Some(u64::from(new)))
+                            }
+                            Err(old) => (u64::from(old), None),
+                        }
+                    }) != 0;
+                    if ok { Ok(seen) } else { Err(seen) }
+                }
+            }
+        }
+
+        pub fn get_mut(&mut self) -> &mut bool {
+            self.0.get_mut()
+        }
+
+        pub fn into_inner(self) -> bool {
+            self.0.into_inner()
+        }
+    }
+
+    impl std::fmt::Debug for AtomicBool {
+        fn fmt(&self, f: &mut std::fmt::Formatter<'_>) -> std::fmt::Result {
+            self.0.fmt(f)
+        }
+    }
+
+    impl Default for AtomicBool {
+        fn default() -> Self {
+            Self::new(false)
+        }
+    }
 }
 
 /// `std::sync::Mutex` whose lock / unlock are reported to the hooks.
